@@ -230,6 +230,13 @@ pub fn parse(l: &Lexed) -> PResult<File> {
                     return c.fail(true, format!("a top-level declaration cannot start with `{}`", t.text));
                 }
             }
+            // nor with a word that is not one of the language's declaration keywords / modifiers
+            if let Some(t) = c.peek() {
+                const STARTS: &[&str] = &["import", "public", "private", "fileprivate", "internal", "open", "final", "struct", "class", "enum", "protocol", "extension", "func", "var", "let", "typealias", "indirect", "static", "actor", "precedencegroup", "infix", "prefix", "postfix", "operator", "mutating", "nonmutating", "override", "required", "convenience", "lazy", "weak", "unowned", "dynamic", "optional", "init", "deinit", "subscript", "associatedtype", "nonisolated", "distributed"];
+                if t.kind == crate::lex::TokKind::Ident && !t.backticked && !STARTS.contains(&t.text.as_str()) {
+                    return c.fail(true, format!("a declaration cannot start with the word `{}`", t.text));
+                }
+            }
             return c.fail(false, "unrecognised top-level construct");
         }
     }
